@@ -125,7 +125,7 @@ RetainedReadable ==
 OnlyPolicyManifests == lastCleanup.ran => (Versions \cup lastCleanup.selected) = (lastCleanup.retained \cup lastCleanup.selected)
 \* files of a write in progress survive unless they are old or unverified deletion was requested
 NoInProgressFileDeleted ==
-  (lastCleanup.ran /\ ~lastCleanup.unverified) => (pending \ old) \subseteq store
+  (lastCleanup.ran /\ ~lastCleanup.unverified) => (pending \ old) \cap lastCleanup.removedFiles = {}
 TypeOK == nextV <= MaxVersions + 1
 
 Done == steps = MaxSteps
